@@ -131,7 +131,7 @@ def run(ctx):
     for h, bb, t in facts.all_calls(lambda t: call_is(t, hd.id) or call_matches(t, r"parse::<common::Header>$")):
         if h.file == PM.file or PM.same_file(h.id):
             continue
-        ctx.ob("C16.2", "other-header-parse|%s" % h.id, "no other place of the connection code parses client header lines", not h.file.endswith("client.rs") and not h.file.endswith("request.rs"), h.loc(bb), nontrivial=False)
+        ctx.ob("C16.2", "other-header-parse|%s" % h.id, "no other place of the connection code parses client header lines", h.file not in (facts.adt(CC)["file"], facts.adt(REQ)["file"]), h.loc(bb), nontrivial=False)
 
     import rules_C13
     rules_C13.line_reader_rules(ctx, facts, "C16.2")
